@@ -342,7 +342,7 @@ class Check:
                 if len(self.notes) < 40:
                     self.notes.append(label + ": " + line[5:][:300])
             elif line.startswith("FAIL "):
-                m = re.match(r"FAIL key=(\S+)\s*(.*)", line)
+                m = re.match(r"FAIL key=(\S+)\s*(.*) ;;END$", line)
                 if m:
                     txt = m.group(2)
                     rp = None
@@ -370,7 +370,7 @@ class Check:
             if m2:
                 sig = m2.group(1)
             site = ""
-            m3 = re.search(r"#\d+ 0x[0-9a-f]+ in (\w+) /repo/(src/[\w/.]+):(\d+)", err or "")
+            m3 = re.search(r"#\d+ 0x[0-9a-f]+ in (\w+) \S*?/(src/(?:liblzma|xz|xzdec|lzmainfo|common)/[\w/.]+):(\d+)", (err or "")[(err or "").find("ERROR:"):] if "ERROR:" in (err or "") else (err or ""))
             if m3:
                 site = f"{m3.group(1)}@{os.path.basename(m3.group(2))}"
             key = "crash:" + label.split("/")[0] + ":" + re.sub(r"\W+", "_", sig)[:60] + ":" + site
